@@ -122,6 +122,9 @@ func scRoaming(r *Run) {
 		}
 		if len(captured) < 400 {
 			captured = append(captured, d.clone())
+		} else { // keep the most recent ones
+			copy(captured, captured[1:])
+			captured[len(captured)-1] = d.clone()
 		}
 		r.Obligation(1)
 		dst := d.Dst.String()
@@ -203,6 +206,28 @@ func scRoaming(r *Run) {
 		a := atk
 		if r.Intn("act", 3) == 0 {
 			a = Addr(byte(67+r.Intn("act", 20)), 1000+r.Intn("act", 5000))
+		}
+		if r.Intn("gap", 6) == 0 {
+			// a burst of lost packets: one direction's counter moves forward by up to a window and a bit (what the
+			// receiver sees next is a jump), and right afterwards something the receiver accepted shortly before the
+			// gap comes again from another address
+			d := uint64([]int{1 + r.Intn("gap", 64), 300 + r.Intn("gap", 300), 380 + r.Intn("gap", 140), 448, 449, 512}[r.Intn("gap", 6)])
+			if r.Intn("gap", 2) == 0 {
+				tc.C.VerifSkipSendCounters(d)
+			} else {
+				h.VerifSkipSendCounters(d)
+			}
+			r.CountFault("counter-gap", 1)
+			time.Sleep(time.Duration(20+r.Intn("gap", 200)) * time.Millisecond) // (the writers go on: the next packet carries the jump)
+			for k := 0; k < 1+r.Intn("gap", 4) && len(captured) > 0; k++ {
+				back := 1 + r.Intn("gap", min(len(captured), 120))
+				g := captured[len(captured)-back].clone()
+				g.From = a
+				g.Copy = 300
+				n.Redeliver(g, 0)
+				r.CountFault("verbatim-replay-from-other-address", 1)
+			}
+			continue
 		}
 		switch r.Intn("act", 6) {
 		case 0: // the roaming endpoint gets a new address (NAT rebinding / new network)
